@@ -4,11 +4,14 @@
   operands), dropping references, triggering and waiting, and every interleaving of those operations at the
   granularity of one Signal operation (then / go / remove_then are the atomic operations of M1, C01-C02).
 
-  PARTIAL.  Proved for every reachable state: the operands of a live, untriggered OR composite stay alive
-  (so a Till inside `a | Till(..)` is not lost) and cannot be collected.  The equivalence `c ↔ x ∨ y` at
-  quiescence is checked on the real code by the monitor and by trace acceptance, not yet a theorem.
+  Proved for every reachable state: the operands of a live, untriggered OR composite stay alive (so a Till
+  inside `a | Till(..)` is not lost) and cannot be collected; a composite that was not triggered directly is
+  true only if some operand is (at every moment), and at every quiescent point a live composite is true
+  exactly when some operand is — whether the operands were triggered before, during or after it was built.
+  Constants (None / True / False / DONE / NEVER) and the release of waiters (C01 on the composite, an ordinary
+  Signal) are checked on the real operators by monitors.
 -/
-import MoThreads.Proofs.CompLive
+import MoThreads.Proofs.CompIff
 namespace MoThreads.Composite
 open MoThreads
 
@@ -39,5 +42,67 @@ theorem C03_operand_not_collectable {s : State} (h : sys.Reach s) (o : Nat) (ho 
     exfalso
     have C := collectable_spec hc
     exact C.noOr o ho (orRef_of_target_alive hal) (by rw [C03_operand_list_intact h o ho hal hgo]; exact hd)
+
+/-- "Only if": at every moment, a composite that the program did not trigger directly is true only if at least one
+of its operands is true. -/
+theorem C03_true_only_if_some_operand {s : State} (h : sys.Reach s) (o : Nat) (ho : o < s.nOr)
+    (hgo : (s.sigs (s.ors o).target).go = true) (hdir : (s.sigs (s.ors o).target).direct = false) :
+    ∃ d, d ∈ (s.ors o).deps0 ∧ (s.sigs d).go = true := by
+  obtain ⟨hl, _, hg⟩ := reach_all h
+  exact hg.G1 _ o (hl.F1 o ho).1 (hl.F1 o ho).2 hgo hdir
+
+/-- "As soon as": an operand that is true has its hook still to be registered, queued, or has already made the
+composite true — so once the triggering `go()` (and the construction, if still running) has finished, the live
+composite is true. -/
+theorem C03_true_operand_propagates {s : State} (h : sys.Reach s) (o i d : Nat) (ho : o < s.nOr) (hd : (s.ors o).deps0[i]? = some d)
+    (hgo : (s.sigs d).go = true) : HD s o i d :=
+  (reach_all h).2.2.H o i d ho hd hgo
+
+/-- The equivalence: at every quiescent point, a live composite `c = x | y` that was not triggered directly is
+true exactly when at least one operand is true. -/
+theorem C03_or_iff {s : State} (h : sys.Reach s) (hq : Quiet s) (o : Nat) (ho : o < s.nOr)
+    (hal : (s.sigs (s.ors o).target).alive = true) (hdir : (s.sigs (s.ors o).target).direct = false) :
+    (s.sigs (s.ors o).target).go = true ↔ ∃ d, d ∈ (s.ors o).deps0 ∧ (s.sigs d).go = true := by
+  constructor
+  · intro hgo; exact C03_true_only_if_some_operand h o ho hgo hdir
+  · rintro ⟨d, hdm, hgd⟩
+    obtain ⟨i, hi⟩ := List.mem_iff_getElem?.mp hdm
+    rcases C03_true_operand_propagates h o i d ho hi hgd with h1 | h1 | h1 | h1 | h1
+    · exact absurd h1 (not_inTodos_of_quiet hq _)
+    · exact absurd h1 (not_inTodos_of_quiet hq _)
+    · exact absurd h1 (not_inTodos_of_quiet hq _)
+    · exact h1
+    · rw [hal] at h1; cases h1
+
+/-- ... in terms of the two operands. -/
+theorem C03_or_iff_operands {s : State} (h : sys.Reach s) (hq : Quiet s) (o : Nat) (ho : o < s.nOr)
+    (hal : (s.sigs (s.ors o).target).alive = true) (hdir : (s.sigs (s.ors o).target).direct = false) :
+    ∃ x y, (s.ors o).deps0 = [x, y] ∧ ((s.sigs (s.ors o).target).go = true ↔ ((s.sigs x).go = true ∨ (s.sigs y).go = true)) := by
+  obtain ⟨x, y, hxy⟩ := (reach_all h).2.1.D2 o ho
+  refine ⟨x, y, hxy, ?_⟩
+  rw [C03_or_iff h hq o ho hal hdir, hxy]
+  constructor
+  · rintro ⟨d, hdm, hg⟩
+    simp only [List.mem_cons, List.mem_nil_iff, or_false] at hdm
+    rcases hdm with rfl | rfl
+    · exact Or.inl hg
+    · exact Or.inr hg
+  · rintro (hg | hg)
+    · exact ⟨x, by simp, hg⟩
+    · exact ⟨y, by simp, hg⟩
+
+/-- Once true, always true. -/
+theorem C03_flag_is_monotone {s s' : State} {t : Nat} {l : Label} (h : sys.Reach s) (hs : step s t = some (s', l)) (z : Nat) (hz : z < s.nSig)
+    (hgo : (s.sigs z).go = true) : (s'.sigs z).go = true := by
+  unfold step at hs
+  split at hs
+  · cases htd : s.todo t with
+    | nil => rw [htd] at hs; cases hs
+    | cons a rest =>
+      rw [htd] at hs; simp only at hs
+      cases he : exec s t a rest with
+      | none => rw [he] at hs; cases hs
+      | some s2 => rw [he] at hs; cases hs; exact (ext_exec he).go z hz hgo
+  · cases hs
 
 end MoThreads.Composite
